@@ -33,6 +33,9 @@ const (
 	// (the caller's own copy). A FAILED call must leave that module as it was:
 	// the caller is entitled to retry with a complete value map.
 	OpResolveInPlace = "resolve_inplace"
+	// OpClone: ir.CloneModule(Mod) -> module object Dst (the exported deep copy
+	// on which a caller runs passes without touching the original).
+	OpClone = "clone"
 )
 
 // Ref names an operation by position.
@@ -168,6 +171,9 @@ type Op struct {
 	DXIL    *DXILOpts    `json:"dxil,omitempty"`
 	Oneshot *OneshotOpts `json:"oneshot,omitempty"`
 	Consts  []Const      `json:"consts,omitempty"` // resolve
+	// Passes: for compact, which exported IR passes to run, in order ("unused",
+	// "types", "reorder", "constants", "expressions", "dedup"); empty = "unused".
+	Passes []string `json:"passes,omitempty"`
 
 	// StepLimit caps the logical steps of this operation (0 = no cap).
 	StepLimit uint64 `json:"step_limit,omitempty"`
